@@ -277,6 +277,8 @@ func typeMembers(tier string, cfg gen.Config) []member {
 		{Kind: "object"}, {Kind: "object", Props: []*fam.Prop{{Label: "q", Spec: &fam.Spec{Kind: "string"}}}},
 		{Kind: "array", Items: &fam.Spec{Kind: "object", Props: []*fam.Prop{{Label: "q", Spec: &fam.Spec{Kind: "integer"}, Required: true}}}},
 		{Kind: "array", Items: &fam.Spec{Kind: "integer", Null: "after"}},
+		// formats the generator has no type for (OpenAPI width hints, e-mail): annotations, the mapping is that of the bare type
+		{Kind: "integer", Format: "int32"}, {Kind: "integer", Format: "int64"}, {Kind: "number", Format: "double"}, {Kind: "string", Format: "email"},
 	}
 	// goJSONSchema.type overrides (with imports / nillable), required and optional, next to a plain sibling
 	for _, ov := range []struct {
@@ -397,6 +399,13 @@ func enumMembers(tier string, cfg gen.Config) []member {
 		// ... of an array that is itself a definition (declared array type)
 		out = append(out, member{name: "enum items of an array definition " + sp.String(), cfg: cfg, root: place(&fam.Spec{Kind: "array", Items: sp.Clone()}, "def-required")})
 	}
+	// an integer enum that also carries a width hint: the carrier stays the type of the value table's elements
+	for _, f := range []string{"int32", "int64"} {
+		sp := &fam.Spec{Kind: "integer", Enum: "ints", Format: f}
+		for _, pos := range []string{"required", "def-required"} {
+			out = append(out, member{name: "enum " + pos + " " + sp.String() + " format " + f, cfg: cfg, root: place(sp, pos)})
+		}
+	}
 	return out
 }
 
@@ -446,6 +455,12 @@ func anyOfMembers(tier string, cfg gen.Config) []member {
 			// an object branch next to a primitive branch (valid JSON Schema; the merged type must at least compile)
 			out = append(out, member{name: "anyOf mixing an object branch and a primitive branch", cfg: cfg, tag: "anyOf with an object and a primitive branch",
 				root: &fam.Spec{Kind: "object", Props: []*fam.Prop{{Label: "u", Spec: &fam.Spec{Kind: "object", AnyOf: []*fam.Spec{branch(0), {Kind: "string"}}}}}}})
+			// a primitive-typed branch next to a branch that states no type: the union is not a string (or a boolean); it is
+			// represented as interface{} and nothing is validated, so every document one branch admits is accepted
+			out = append(out, member{name: "anyOf of a typed primitive branch and an untyped branch", cfg: cfg, root: &fam.Spec{Kind: "object", Props: []*fam.Prop{{Label: "u", Required: true,
+				Spec: &fam.Spec{Kind: "any", AnyOf: []*fam.Spec{{Kind: "string", Kw: []string{"minLength"}}, {Kind: "integer", NoType: true, Kw: []string{"minimum"}}}}}}}})
+			out = append(out, member{name: "anyOf of a boolean branch and an untyped object branch", cfg: cfg, root: &fam.Spec{Kind: "object", Props: []*fam.Prop{{Label: "u",
+				Spec: &fam.Spec{Kind: "any", AnyOf: []*fam.Spec{{Kind: "boolean"}, {Kind: "object", NoType: true, Props: []*fam.Prop{{Label: "t", Spec: &fam.Spec{Kind: "integer"}}}}}}}}}})
 			// an anyOf DEFINITION that two properties refer to (one type, generated once)
 			var bs3 []*fam.Spec
 			for i := 0; i < n; i++ {
@@ -504,6 +519,11 @@ func reservedNameMembers(cfg gen.Config) []member {
 		d := &fam.Spec{Kind: "object", Ref: "$defs", ConcreteDef: dn, Props: []*fam.Prop{{Label: "t", Spec: str("minLength"), Required: true}}}
 		out = append(out, member{name: "definition named " + dn + " next to a type with additionalProperties", cfg: cfg, root: &fam.Spec{Kind: "object", AddProps: "string",
 			Props: []*fam.Prop{{Label: "d", Spec: d, Required: true}, {Label: "n", Spec: &fam.Spec{Kind: "integer", Kw: []string{"minimum"}}}}}})
+	}
+	// a property whose name is the decoders' skip marker
+	for _, req := range []bool{true, false} {
+		out = append(out, member{name: fmt.Sprintf("property named - required=%v", req), cfg: cfg, tag: "property named -", root: &fam.Spec{Kind: "object",
+			Props: []*fam.Prop{{Label: "r", Concrete: "-", Spec: str("maxLength"), Required: req}, {Label: "s", Spec: str("minLength"), Required: true}}}})
 	}
 	for _, name := range []string{"additional_properties", "additionalProperties", "plain", "raw", "value"} {
 		out = append(out, member{name: "property named " + name, cfg: cfg, root: &fam.Spec{Kind: "object",
